@@ -22,6 +22,7 @@ import (
 //verif:include ../dnsdata/rdb/zz_verif_model.go
 //verif:include ../db/zz_verif_world.go
 //verif:harness H20_chain property=C20 native=no quick=layout=2,whoami=1,any=1,maxans=2;layout=0,whoami=0,any=0,maxans=1 thorough=layout=1,whoami=1,any=0,maxans=3;layout=2,whoami=0,any=1,maxans=1;layout=0,whoami=1,any=1,maxans=2
+//verif:subst H20_chain github.com/facebookincubator/dns/dnsrocks/dnsserver.typeToStatsKey github.com/facebookincubator/dns/dnsrocks/dnsserver.VerifStatsKeyStub
 //verif:subst H20_chain (*github.com/facebookincubator/dns/dnsrocks/fbserver.Server).initUDPServer github.com/facebookincubator/dns/dnsrocks/fbserver.verifInitUDP
 //verif:subst H20_chain (*github.com/facebookincubator/dns/dnsrocks/fbserver.Server).initTCPServer github.com/facebookincubator/dns/dnsrocks/fbserver.verifInitTCP
 //verif:subst H20_chain (*github.com/miekg/dns.Server).ActivateAndServe github.com/facebookincubator/dns/dnsrocks/fbserver.verifActivate
@@ -40,7 +41,7 @@ type verifExporter struct{}
 
 func (verifExporter) ConsumeStats(category string, stats *metrics.Stats) error { return nil }
 
-var verifC20Names = []string{"c.z.", "big.z.", "w.z.", "q.z.", "d.z.", "y.", "whoami.test.", "WhoAmI.Test."}
+var verifC20Names = []string{"c.z.", "big.z.", "w.z.", "q.z.", "d.z.", "y.", "whoami.test.", "WhoAmI.Test.", "C.z.", "AbCdEf.TeSt."} // the last one is as long as the whoami domain
 
 func H20_chain() {
 	layout := nd.Param("layout")
@@ -55,14 +56,17 @@ func H20_chain() {
 	nd.Assert(len(srv.servers) == 2, "one-udp-and-one-tcp-listener")
 
 	name := verifC20Names[nd.Choice(len(verifC20Names))]
-	qtype := []uint16{dns.TypeA, dns.TypeTXT, dns.TypeANY}[nd.Choice(3)]
+	// any query type and class, any id and RD/CD bits (solver-chosen)
+	qtype, qclass, id := nd.Uint16(), nd.Uint16(), nd.Uint16()
+	rd, cd := nd.Bool(), nd.Bool()
 	withQuestion := nd.Choice(8) != 0
 	build := func() *dns.Msg {
 		m := new(dns.Msg)
-		m.Id = 4242
-		m.RecursionDesired = true
+		m.Id = id
+		m.RecursionDesired = rd
+		m.CheckingDisabled = cd
 		if withQuestion {
-			m.Question = []dns.Question{{Name: name, Qtype: qtype, Qclass: dns.ClassINET}}
+			m.Question = []dns.Question{{Name: name, Qtype: qtype, Qclass: qclass}}
 		}
 		return m
 	}
